@@ -640,3 +640,62 @@ V('v13.s1', 'C13', 'S', None, 'ast.parse via compile(PyCF_ONLY_AST)',
   (PARSER, 'parse_model', 'body = ast.parse(e).body', "body = compile(e, '<string>', 'exec', ast.PyCF_ONLY_AST).body"))
 V('v13.s2', 'C13', 'S', None, 'escape inlined',
   (PARSER, 'parse_equation', "    pieces.append(escape_braces(equation[position:]))", "    pieces.append(equation[position:].replace('{', '{{').replace('}', '}}'))"))
+
+# ---------------------------------------------------------------------------
+# C14
+# ---------------------------------------------------------------------------
+V('v14.1', 'C14', 'F', 'C14.R1', 'module-level cache written by parse_equation',
+  (PARSER, '', "def parse_equation(equation: str) -> List[Symbol]:", "_CACHE: Dict[str, int] = {}\n\n\ndef parse_equation(equation: str) -> List[Symbol]:"),
+  (PARSER, 'parse_equation', "    # Extract the terms from the equation\n", "    _CACHE[equation] = len(_CACHE)\n    # Extract the terms from the equation\n"))
+V('v14.1b', 'C14', 'F', 'C14.R1', 'previous statement carried into the next parse',
+  (PARSER, 'parse_model', "        equation_symbols = parse_equation(statement)\n", "        equation_symbols = parse_equation(statement if not symbols_by_equation else statement + ' ')\n"))
+V('v14.2', 'C14', 'F', 'C14.R2', 'comments stripped only from the first line of a buffer',
+  (PARSER, 'split_equations_iter', "    for line in map(strip_comments, model.splitlines()):\n        buffer.append(line)\n",
+   "    for line in model.splitlines():\n        if not buffer:\n            line = strip_comments(line)\n        buffer.append(line)\n"))
+V('v14.2b', 'C14', 'F', 'C14.R2', 'blank statements are yielded', (PARSER, 'split_equations_iter', "            if equation.strip():  # Skip pure whitespace", "            if True:"))
+V('v14.3', 'C14', 'F', 'C14.R3', r'no whitespace after {', (PARSER, '', r"(?: \{ \s* (?P<_PARAMETER>", r"(?: \{ (?P<_PARAMETER>"))
+V('v14.3b', 'C14', 'F', 'C14.R5', r'no whitespace before ] of an index', (PARSER, '', r"(?: \[ \s* (?P<INDEX> .*? ) \s* \] )?", r"(?: \[ \s* (?P<INDEX> .*? ) \] )?"))
+V('v14.4', 'C14', 'F', 'C14.R4', r'the \(\s+ pass is deleted', (PARSER, 'parse_equation', "    template = re.sub(r'\\(\\s+', '(', template)  # Remove space after opening brackets\n", ''))
+V('v14.4b', 'C14', 'F', 'C14.R4', 'whitespace collapse runs last',
+  (PARSER, 'parse_equation', "    template = re.sub(r'\\s+',   ' ', template)  # Remove repeated whitespace\n", ''),
+  (PARSER, 'parse_equation', "    template = re.sub(r'\\s+\\)', ')', template)  # Remove space before closing brackets\n",
+   "    template = re.sub(r'\\s+\\)', ')', template)  # Remove space before closing brackets\n    template = re.sub(r'\\s+',   ' ', template)\n"))
+
+# ---------------------------------------------------------------------------
+# C15
+# ---------------------------------------------------------------------------
+V('v15.1', 'C15', 'F', 'C15.R1', 'untyped _evaluate: catch_first_error=False',
+  (PARSER, 'MODEL_TEMPLATE_UNTYPED', "def _evaluate(self, t, *, errors='raise', catch_first_error=True,", "def _evaluate(self, t, *, errors='raise', catch_first_error=False,"))
+V('v15.2', 'C15', 'F', 'C15.R1', 'untyped CHECK = NAMES', (PARSER, 'MODEL_TEMPLATE_UNTYPED', '    CHECK = ENDOGENOUS\n', '    CHECK = NAMES\n'))
+V('v15.3', 'C15', 'F', 'C15.R3', 'build_model drops min_leads', (PARSER, 'build_model', '        min_leads=min_leads,\n', ''))
+V('v15.3b', 'C15', 'F', 'C15.R3', 'build_model crosses lags/leads', (PARSER, 'build_model', '        lags=lags,\n        leads=leads,\n', '        lags=leads,\n        leads=lags,\n'))
+V('v15.4', 'C15', 'F', 'C15.R3', 'revert F14: handler raises only if failed_execs',
+  (PARSER, 'build_model', """        raise BuildError(
+            'Failed to `exec`ute the following `Symbol` object(s):\\n'
+            + '\\n'.join('    {x}' for x in failed_execs)
+        ) from e""", """        if failed_execs:
+            raise BuildError(
+                'Failed to `exec`ute the following `Symbol` object(s):\\n'
+                + '\\n'.join('    {x}' for x in failed_execs)
+            ) from e"""))
+V('v15.4b', 'C15', 'F', 'C15.R3', 'CODE holds a re-generated text',
+  (PARSER, 'build_model', "locals_['Model'].CODE = model_definition_string", "locals_['Model'].CODE = build_model_definition(symbols)"))
+V('v15.5', 'C15', 'F', 'C15.R4', 'converter applied to ENDOGENOUS only',
+  (PARSER, 'build_model_definition', 'if s.type in (Type.ENDOGENOUS, Type.VERBATIM)', 'if s.type in (Type.ENDOGENOUS,)'))
+V('v15.5b', 'C15', 'F', 'C15.R4', 'converter output stripped', (PARSER, 'build_model_definition', "textwrap.indent(e, '        ') for e in expressions", "textwrap.indent(e.strip(), '        ') for e in expressions"))
+V('v15.6', 'C15', 'F', 'C15.R2', 'template selection inverted', (PARSER, 'build_model_definition', '    if with_type_hints:\n        model_template = MODEL_TEMPLATE_TYPED', '    if not with_type_hints:\n        model_template = MODEL_TEMPLATE_TYPED'))
+V('v15.s1', 'C15', 'S', None, 'same new keyword parameter in both templates',
+  (PARSER, 'MODEL_TEMPLATE_TYPED', "def _evaluate(self, t: int, *, errors: str = 'raise',", "def _evaluate(self, t: int, *, verbose: bool = False, errors: str = 'raise',"),
+  (PARSER, 'MODEL_TEMPLATE_UNTYPED', "def _evaluate(self, t, *, errors='raise',", "def _evaluate(self, t, *, verbose=False, errors='raise',"))
+
+# ---------------------------------------------------------------------------
+# C20
+# ---------------------------------------------------------------------------
+V('v20.1', 'C20', 'F', 'C20.R2', 'edge direction reversed', (TOOLS, 'symbols_to_graph', 'G.add_edge(x, n)', 'G.add_edge(n, x)'))
+V('v20.2', 'C20', 'F', 'C20.R1', 'private term regex',
+  (TOOLS, 'symbols_to_graph', "    G = nx.DiGraph()\n", "    G = nx.DiGraph()\n    term_re = re.compile(r'[_A-Za-z][_A-Za-z0-9]*(?:\\[.*?\\])?')\n"))
+V('v20.3', 'C20', 'F', 'C20.R1', 'split at the last =', (TOOLS, 'symbols_to_graph', "lhs, rhs = e.split('=', maxsplit=1)", "lhs, rhs = e.rsplit('=', maxsplit=1)"))
+V('v20.4', 'C20', 'F', 'C20.R2', 'both lists from the right-hand side', (TOOLS, 'symbols_to_graph', 'endogenous = [m.group(0) for m in term_re.finditer(lhs)]', 'endogenous = [m.group(0) for m in term_re.finditer(rhs)]'))
+V('v20.5', 'C20', 'F', 'C20.R2', 'undirected graph', (TOOLS, 'symbols_to_graph', 'G = nx.DiGraph()', 'G = nx.Graph()'))
+V('v20.6', 'C20', 'F', 'C20.R3', 'code formatted over a different term list',
+  (PARSER, 'parse_equation', 'code = template.format(*[t.code for t in terms])', 'code = template.format(*[t.code for t in parse_terms(equation)])'))
